@@ -45,7 +45,7 @@ func runC04(c *Ctx) {
 				pos := s.Alloc.Pos()
 				eqs := pathEqs(pi.Atoms)
 				isd := pi.Fields["IsDest"]
-				pstr := pi.Path.String()
+				pstr := pi.Desc
 				outerChecked := findEq(eqs, isOuterSrcAddr, m.roles.TargetAddr) != nil
 				mayBeTrue := true
 				switch {
